@@ -107,7 +107,8 @@ func IsIndexOp(kind string) bool {
 // Res is the normalised outcome of a call.
 type Res struct {
 	Err       string        // "" on success
-	Unique    bool          // lungo.IsUniquenessError(err)
+	Unique    bool          // lungo.IsUniquenessError(err) (bulk: of any item's write error)
+	UniqueAll bool          // bulk: lungo.IsUniquenessError of the error the call returned as a whole
 	NoDocs    bool          // ErrNoDocuments
 	Matched   int64         // matched / deleted / count
 	Modified  int64         // modified
@@ -348,6 +349,7 @@ func Exec(ctx context.Context, client lungo.IClient, op *Op) (res Res) {
 		r, err := coll.BulkWrite(ctx, models, options.BulkWrite().SetOrdered(op.Ordered))
 		if err != nil {
 			var we mongo.WriteErrors
+			res.UniqueAll = lungo.IsUniquenessError(err)
 			if errors.As(err, &we) {
 				for _, e := range we {
 					res.WriteErrs = append(res.WriteErrs, e.Index)
